@@ -1048,6 +1048,18 @@ Proof.
   split; [exact (proj1 nv_C17_driver_refines_observer)|]. split; vm_compute; reflexivity.
 Qed.
 
+Example nv_C17_driver_finished_run_cleans_up :
+  wf_cfg drv_cf /\ drun drv_cf (dst0 drv_cf) drv_sched = (drv_final, drv_trace) /\ d_phase drv_final = DEnd /\ List.In drv_f2 (c_files drv_cf).
+Proof.
+  split; [exact (proj1 nv_C17_driver_refines_observer)|]. split; [vm_compute; reflexivity|]. split; [vm_compute; reflexivity|].
+  right; left; reflexivity.
+Qed.
+
+Example nv_C17_driver_holds_at_most_jobs :
+  drun drv_cf (dst0 drv_cf) (firstn 13 drv_sched) = (fst (drun drv_cf (dst0 drv_cf) (firstn 13 drv_sched)), snd (drun drv_cf (dst0 drv_cf) (firstn 13 drv_sched))) /\
+  n_active (d_tasks (fst (drun drv_cf (dst0 drv_cf) (firstn 13 drv_sched)))) = 2%nat.
+Proof. split; vm_compute; reflexivity. Qed.
+
 Example nv_C16_driver_results_consistent : drun drv_cf (dst0 drv_cf) drv_sched = (drv_final, drv_trace).
 Proof. vm_compute; reflexivity. Qed.
 Example nv_C16_driver_exit : drun drv_cf (dst0 drv_cf) drv_sched = (drv_final, drv_trace).
@@ -1056,6 +1068,12 @@ Example nv_C16_driver_reports_each_file_once :
   drun drv_cf (dst0 drv_cf) drv_sched = (drv_final, drv_trace) /\
   match d_phase drv_final with DDrop _ | DClose | DEnd => True | _ => False end.
 Proof. split; [vm_compute; reflexivity|vm_compute; exact I]. Qed.
+
+Example nv_C16_driver_junit_one_case_per_file :
+  drun drv_cf (dst0 drv_cf) drv_sched = (drv_final, drv_trace) /\
+  match d_phase drv_final with DDrop _ | DClose | DEnd => True | _ => False end /\
+  junit_totals (results drv_final) = (3, 1, 2)%nat.
+Proof. split; [vm_compute; reflexivity|]. split; [vm_compute; exact I|vm_compute; reflexivity]. Qed.
 
 (* a state in the middle of the run (after the failure has been reported, the first file still in flight) *)
 Definition drv_mid := fst (drun drv_cf (dst0 drv_cf) (firstn 21 drv_sched)).
